@@ -26,6 +26,8 @@ for d in sorted(glob.glob(os.path.join(ROOT, "C*", "*m[0-9]"))):
         "check_when_first_run": {"exit": (first or last)["checks"].get(pid, {}).get("exit"), "summary": (first or last)["checks"].get(pid, {}).get("summary")},
         "check_now": {"exit": chk.get("exit"), "violations": chk.get("violations"), "summary": chk.get("summary")},
         "caught_first": (first or last).get("caught"), "caught_now": last.get("caught"),
+        # exit codes of the quick check at further VERIF_SEEDs (harness/seeded_multi.sh): 1 = violation reported
+        "check_at_other_seeds": load("multi.json"),
         "note": NOTES.get((pid, k)),
     }
     json.dump(meta, open(os.path.join(d, "meta.json"), "w"), indent=1)
